@@ -162,6 +162,10 @@ class Unit:
             f = VFunc(name, "callee", spec)
             f.qual = "%s.%s" % (getattr(v, "__module__", "?"), getattr(v, "__qualname__", name))
             return f
+        import re as _re
+        if isinstance(v, _re.Pattern):
+            # a compiled pattern is an opaque constant (what it matches is not modelled; callees that take it are UFs)
+            return ex.wrap(z3.Const("pattern!%s" % name, Ref), "ref", "Pattern")
         raise GenError("module-level value %s = %r is outside the model" % (name, type(v)))
 
     def import_module(self, ex, name):
